@@ -5,12 +5,10 @@ package c11
 // Graceful stop of the in-process assembly at a generated point of a request's lifetime.
 
 import (
-	"bufio"
+	"os"
 	"bytes"
 	"fmt"
-	"io"
 	"net"
-	"net/http"
 	"sort"
 	"strings"
 	"sync"
@@ -24,6 +22,8 @@ import (
 )
 
 const tick = 10 * time.Millisecond // the sleep of waitConnectionsClose
+
+var debugGS = os.Getenv("C11_DEBUG") != ""
 
 type gsCase struct {
 	proto   string // h1
@@ -60,78 +60,35 @@ func newPlan(half bool, released bool, size int) (string, *plan) {
 	return id, p
 }
 
-type h1Client struct {
-	c  net.Conn
-	br *bufio.Reader
-}
-
-func dialH1(addr string) (*h1Client, error) {
-	c, err := net.DialTimeout("tcp", addr, 2*time.Second)
-	if err != nil {
-		return nil, err
-	}
-	return &h1Client{c: c, br: bufio.NewReader(c)}, nil
-}
-
-func h1Request(id string, body []byte) (head, bod []byte) {
-	h := fmt.Sprintf("POST /c11/%s HTTP/1.1\r\nHost: c11.test\r\nX-Plan: %s\r\nContent-Type: text/plain\r\nContent-Length: %d\r\n\r\n", id, id, len(body))
-	return []byte(h), body
-}
-
-// readResp reads one response and checks it against the plan.
-func (h *h1Client) readResp(p *plan, timeout time.Duration) error {
-	h.c.SetReadDeadline(time.Now().Add(timeout))
-	resp, err := http.ReadResponse(h.br, nil)
-	if err != nil {
-		return err
-	}
-	b, err := io.ReadAll(resp.Body)
-	resp.Body.Close()
-	if err != nil {
-		return err
-	}
-	if resp.StatusCode != 200 || !bytes.Equal(b, p.body) {
-		return fmt.Errorf("bad response %d len %d", resp.StatusCode, len(b))
-	}
-	return nil
-}
-
-// quick performs one complete request whose upstream answers immediately.
-func (h *h1Client) quick() error {
-	id, p := newPlan(false, true, 64)
-	defer plans.Delete(id)
-	hd, bd := h1Request(id, []byte("quick-body"))
-	h.c.SetWriteDeadline(time.Now().Add(3 * time.Second))
-	if _, err := h.c.Write(append(hd, bd...)); err != nil {
-		return err
-	}
-	return h.readResp(p, 5*time.Second)
-}
-
 func okTok(err error) string {
 	if err == nil {
 		return "ok"
+	}
+	if err == errRetryable {
+		return "retry"
 	}
 	return "fail"
 }
 
 // probeNew classifies a new connection attempt: ref (refused), pend (connected but nobody serves it), srv (served).
-func probeNew(addr string) string {
-	c, err := dialH1(addr)
+func probeNew(proto, addr string) string {
+	k, err := dialProto(proto, addr)
 	if err != nil {
 		if strings.Contains(err.Error(), "refused") {
 			return "ref"
 		}
 		return "err"
 	}
-	defer c.c.Close()
+	defer k.conn().Close()
 	id, p := newPlan(false, true, 16)
 	defer plans.Delete(id)
-	hd, bd := h1Request(id, []byte("probe"))
-	c.c.Write(append(hd, bd...))
-	if err := c.readResp(p, 250*time.Millisecond); err == nil {
+	hd, bd := k.request(id, 5)
+	k.conn().Write(append(append([]byte{}, hd...), bd...))
+	err = k.readResp(p, 250*time.Millisecond)
+	if err == nil {
 		return "srv"
-	} else if ne, ok := err.(net.Error); ok && ne.Timeout() {
+	}
+	if ne, ok := err.(net.Error); ok && ne.Timeout() || strings.Contains(err.Error(), "timeout") {
 		return "pend"
 	}
 	return "rst"
@@ -146,21 +103,21 @@ func runGS(c *hx.Ctx, g gsCase) {
 		}
 		inh = l
 	}
-	m := newMosn("Http1", inh)
+	m := newMosn(g.proto, inh)
 	m.waitRunning(network.VerifListenerState, int(network.ListenerRunning))
 	defer func() {
 		stagemanager.SetState(stagemanager.Running)
 		m.srv.Close()
 	}()
 
-	var conns []*h1Client
+	var conns []cli
 	defer func() {
 		for _, k := range conns {
-			k.c.Close()
+			k.conn().Close()
 		}
 	}()
-	open := func() *h1Client {
-		k, err := dialH1(m.addr)
+	open := func() cli {
+		k, err := dialProto(g.proto, m.addr)
 		if err != nil {
 			panic(fmt.Sprintf("dial before stop failed: %v", err))
 		}
@@ -168,21 +125,21 @@ func runGS(c *hx.Ctx, g gsCase) {
 		return k
 	}
 	// idle keep-alive connections, each has served one request
-	var idle []*h1Client
+	var idle []cli
 	for i := 0; i < g.idle; i++ {
 		k := open()
-		if err := k.quick(); err != nil {
+		if err := quick(k); err != nil {
 			panic(fmt.Sprintf("warm-up request failed: %v", err))
 		}
 		idle = append(idle, k)
 	}
 	// background closed-loop clients
-	var bgFail int32
+	var bgFail, bgRetry int32
 	var bgWG sync.WaitGroup
 	bgStop := make(chan struct{})
 	for i := 0; i < g.bg; i++ {
 		k := open()
-		if err := k.quick(); err != nil {
+		if err := quick(k); err != nil {
 			panic(fmt.Sprintf("warm-up request failed: %v", err))
 		}
 		bgWG.Add(1)
@@ -194,8 +151,12 @@ func runGS(c *hx.Ctx, g gsCase) {
 					return
 				default:
 				}
-				if err := k.quick(); err != nil {
-					atomic.AddInt32(&bgFail, 1)
+				if err := quick(k); err != nil {
+					if err == errRetryable {
+						atomic.AddInt32(&bgRetry, 1)
+					} else {
+						atomic.AddInt32(&bgFail, 1)
+					}
 					return
 				}
 				time.Sleep(2 * time.Millisecond)
@@ -206,7 +167,7 @@ func runGS(c *hx.Ctx, g gsCase) {
 	main := open()
 	id, p := newPlan(g.phase == "resp", false, 4096)
 	defer plans.Delete(id)
-	hd, bd := h1Request(id, bytes.Repeat([]byte("b"), 2048))
+	hd, bd := main.request(id, 2048)
 	full := append(append([]byte{}, hd...), bd...)
 	sent := 0
 	switch g.phase {
@@ -218,8 +179,8 @@ func runGS(c *hx.Ctx, g gsCase) {
 	default:
 		sent = len(full)
 	}
-	main.c.SetWriteDeadline(time.Now().Add(3 * time.Second))
-	if _, err := main.c.Write(full[:sent]); err != nil {
+	main.conn().SetWriteDeadline(time.Now().Add(3 * time.Second))
+	if _, err := main.conn().Write(full[:sent]); err != nil {
 		panic(err)
 	}
 	if sent == len(full) {
@@ -245,7 +206,7 @@ func runGS(c *hx.Ctx, g gsCase) {
 		if err != nil {
 			panic(err)
 		}
-		succ = newMosn("Http1", fl)
+		succ = newMosn(g.proto, fl)
 		defer succ.srv.Close()
 		succ.waitRunning(network.VerifListenerState, int(network.ListenerRunning))
 	}
@@ -269,7 +230,7 @@ func runGS(c *hx.Ctx, g gsCase) {
 	var reqErr error
 	close(p.release)
 	if sent < len(full) {
-		_, reqErr = main.c.Write(full[sent:])
+		_, reqErr = main.conn().Write(full[sent:])
 	}
 	if reqErr == nil {
 		reqErr = main.readResp(p, 5*time.Second)
@@ -287,14 +248,14 @@ func runGS(c *hx.Ctx, g gsCase) {
 	c.Count(fmt.Sprintf("gs.return_vs_continue_ms=%+d", roundTo((tReturn-tContinue).Milliseconds(), 50)))
 
 	// after the listener stopped: a new connection, and a new request on an existing keep-alive connection
-	newc := probeNew(m.addr)
+	newc := probeNew(g.proto, m.addr)
 	for i := 0; i < 6 && newc != "ref" && network.VerifListenerState(m.ln) == int(network.ListenerClosed); i++ {
 		time.Sleep(250 * time.Millisecond) // the freed port may have been taken by an unrelated socket of a parallel run
-		newc = probeNew(m.addr)
+		newc = probeNew(g.proto, m.addr)
 	}
 	late := "na"
 	if len(idle) > 0 {
-		late = okTok(idle[0].quick())
+		late = okTok(quick(idle[0]))
 	}
 	// go-away broadcast: OnShutdown events delivered per existing connection
 	want := g.idle + g.bg + 1
@@ -314,10 +275,19 @@ func runGS(c *hx.Ctx, g gsCase) {
 		time.Sleep(2 * time.Millisecond)
 	}
 	sort.Strings(evs)
+	// go-away notifications that reached the clients (bolt go-away frame, HTTP/2 GOAWAY; HTTP/1 has none)
+	cga := 0
+	for _, k := range conns {
+		cga += k.goAways(300 * time.Millisecond)
+	}
 	lst := network.VerifListenerState(m.ln)
-	impl := fmt.Sprintf("req=%s new=%s exitfirst=%d goaway=%s late=%s bgfail=%d lstate=%d shut=%s",
-		okTok(reqErr), newc, exitFirst, strings.Join(evs, ","), late, atomic.LoadInt32(&bgFail), lst, okTok(shutErr))
+	impl := fmt.Sprintf("req=%s new=%s exitfirst=%d goaway=%s cga=%d late=%s bgfail=%d bgretry=%d lstate=%d shut=%s",
+		okTok(reqErr), newc, exitFirst, strings.Join(evs, ","), cga, late, atomic.LoadInt32(&bgFail), atomic.LoadInt32(&bgRetry), lst, okTok(shutErr))
+	if reqErr != nil && debugGS {
+		fmt.Fprintf(os.Stderr, "DEBUG %s: req error: %v\n", g.String(), reqErr)
+	}
 	c.Emit("C11", g.String(), impl)
+	c.Count("gs.proto=" + g.proto)
 	c.Count("gs.phase=" + g.phase)
 	c.Count(fmt.Sprintf("gs.stage=%d", g.stage))
 	c.Count("gs.new=" + newc)
@@ -335,7 +305,7 @@ func genGS(c *hx.Ctx, i int) gsCase {
 	r := c.Rng
 	phases := []string{"pre", "hdr", "body", "wait", "resp"}
 	stages := []int{int(stagemanager.GracefulStopping), int(stagemanager.GracefulStopping), int(stagemanager.Running), int(stagemanager.Upgrading), int(stagemanager.Upgrading)}
-	g := gsCase{proto: "h1", phase: phases[i%len(phases)], stage: stages[r.Intn(len(stages))], idle: r.Intn(3), inherit: r.Bool()}
+	g := gsCase{proto: []string{"h1", "bolt", "h2"}[(i/len(phases))%3], phase: phases[i%len(phases)], stage: stages[r.Intn(len(stages))], idle: r.Intn(3), inherit: r.Bool()}
 	g.drain = r.Pick([]int{12, 16, 20, 26})
 	if g.phase == "wait" || g.phase == "resp" {
 		g.bg = r.Intn(3)
